@@ -10,6 +10,8 @@ Afterwards the invariants of the statement must hold, or - after KeyError/ValueE
 from __future__ import annotations
 
 from _griffe.collections import ModulesCollection
+from pathlib import Path
+
 from _griffe.exceptions import AliasResolutionError, CyclicAliasError
 from _griffe.mixins import DelMembersMixin, GetMembersMixin, SetMembersMixin, _get_parts
 from _griffe.models import Alias, Attribute, Class, Function, Module
@@ -372,3 +374,64 @@ def retarget(which: str, target: int) -> bool:
     if al.parent is not None and value.aliases.get(al.path) is not al:
         return fail("retargeted alias is not registered among its new target's aliases under its current path")
     return True
+
+
+# ================================================================================ replacing a module by its stubs (or the reverse) while aliases point at it
+@obligation(
+    pid="C16", name="module_replacement", timeout=tiered(120, 300),
+    pre=lambda py_first, resolved, via: via == 0,  # aliases to MEMBERS of the replaced module are outside the statement ("aliases that pointed at an object replaced ...")
+    drives=[SetMembersMixin.set_member, prop(Alias, "target")],
+    bounds={"tree": "package pkg with module mod (mod.py) and a second module other holding an alias a -> pkg.mod (optionally also b -> pkg.mod.f)", "operation": "pkg.set_member('mod', <the module built from mod.pyi>) - or the two files in the opposite order",
+            "alias": "already resolved or not"},
+    value_symbolic=["py_first (which file is in the tree first)", "resolved (was the alias already resolved)", "via (alias to the module or to a function in it)"], stubs=STUBS,
+    must_cover=["alias-follows-the-module-that-stays"],
+    grid=lambda seed: [dict(py_first=p, resolved=r, via=0) for p in (False, True) for r in (False, True)],
+)
+def module_replacement(py_first: bool, resolved: bool, via: int) -> bool:
+    """When the module built from the .pyi meets the module built from the .py through set_member (either order), the runtime module stays in
+    the tree (stubs merged into it) and every alias that pointed at the module (or into it) targets the object that is in the tree."""
+    from vlib.stubs import realize_value
+
+    py_first, resolved, via = realize_value(py_first), realize_value(resolved), realize_value(via)
+    from harness.C08_json import _native
+
+    def run():
+        col = ModulesCollection()
+        pkg = Module("pkg", filepath=Path("/x/pkg/__init__.py"))
+        col.set_member("pkg", pkg)
+        rt = Module("mod", filepath=Path("/x/pkg/mod.py"))
+        rt.set_member("f", Function("f", lineno=1, endlineno=2))
+        st = Module("mod", filepath=Path("/x/pkg/mod.pyi"))
+        st.set_member("f", Function("f", lineno=1, endlineno=1))
+        other = Module("other", filepath=Path("/x/pkg/other.py"))
+        pkg.set_member("other", other)
+        al = Alias("a", "pkg.mod" if via == 0 else "pkg.mod.f", lineno=1, endlineno=1)
+        other.set_member("a", al)
+        first, second = (rt, st) if py_first else (st, rt)
+        pkg.set_member("mod", first)
+        if resolved:
+            al.target  # noqa: B018  (resolves the alias against the module that is in the tree now)
+        pkg.set_member("mod", second)
+        if not invariants(col):
+            return OB_LAST()
+        in_tree = col.get_member("pkg.mod")
+        want = in_tree if via == 0 else in_tree.members["f"]
+        try:
+            got = al.target
+        except (AliasResolutionError, CyclicAliasError) as e:
+            return f"alias no longer resolves after the replacement: {type(e).__name__}"
+        if got is not want:
+            return f"alias pkg.other.a targets an object that is not in the tree (files met {'py then pyi' if py_first else 'pyi then py'}, alias {'already resolved' if resolved else 'unresolved'}): {got!r} from {getattr(got, 'filepath', None)} instead of the {want.kind.value} at {want.path}"
+        return None
+
+    err = _native(run)
+    if err:
+        return fail(err)
+    cover("alias-follows-the-module-that-stays")
+    return True
+
+
+def OB_LAST():
+    from vlib import ob as _OB
+
+    return "; ".join(_OB.LAST_FAIL[-1:]) or "tree invariants violated"
